@@ -1,5 +1,6 @@
 import Py4hwV.Proofs.C20Req
 import Py4hwV.Proofs.C20Resp
+import Py4hwV.Proofs.C20Chain
 /-
   C20 — the hardware-in-the-loop UART command codec decodes and encodes exactly.
 
@@ -434,5 +435,117 @@ example : response 8 6 0xBEEF = [61, 48, 48, 66, 69, 69, 70, 33] := by decide
 example : response 8 2 0xBEEF = [61, 69, 70, 33] := by decide
 example : response 4 1 0xA = [13, 1, 1] := by decide
 example : (respRun 8 CMDResponse.init ⟨0, 0⟩ (⟨1, 5, 0, 1⟩ :: exReady)).map (·.2) = some [61, 33] := by decide +kernel
+
+/-! ## sessions: several queries, start pulses at ANY time -/
+
+/-- the session theorem.  From power-up, for ANY input sequence (start pulses whenever — also while a response is in
+    flight —, any junk on `vin`/`size`, any `ready` pattern): `CMDResponse.clock` never raises and the cycle-by-cycle
+    observation is accepted by the specification monitor `Hil.monStep`, i.e.
+      * a start pulse seen while nothing is owed (that is exactly: the encoder is in state 0 — the coupling `Coup`;
+        in particular in the very first cycle after the '!' handshake of the previous response) is answered with the
+        complete string '=' ++ hex digits MSB first ++ '!' of the (vin, size) sampled in that cycle, delivered within
+        `2·size+4` ready cycles;
+      * a start pulse while a response is owed is ignored (the protocol's documented limitation, not hidden);
+      * no character is ever handed over that is not the next owed one. -/
+theorem resp_session (wv : Nat) (cs : List RespIn) :
+    ∃ obs m', respObs wv CMDResponse.init ⟨0, 0⟩ cs = some obs ∧ monRun wv Mon.idle obs = some m' ∧
+      obs.map (·.1) = cs :=
+  resp_session_run wv cs Mon.idle CMDResponse.init ⟨0, 0⟩ (coup_powerup wv)
+
+/-- "a start_resp pulse seen in state 0 always yields the full response string": idle encoder (any leftover register
+    contents), a start cycle with (v, s) on the inputs, then ARBITRARY cycles `cs` (further start pulses and junk
+    included) in which the consumer is ready at least `2s+4` times: some prefix `cs1` of `cs` hands over exactly
+    `response wv s v` and leaves the encoder idle again (state 0, `valid` low), ready for the next query. -/
+theorem resp_query_answered (wv v s : Nat) (st : CMDResponse.St) (w : RespW) (h0 : st.state = 0) (hv : w.valid = 0)
+    (i0 : RespIn) (hi : i0.start ≠ 0) (hvin : i0.vin = v) (hsz : i0.size = s)
+    (cs : List RespIn) (hready : 2 * s + 4 ≤ readyCount cs) :
+    ∃ cs1 cs2 f, cs = cs1 ++ cs2 ∧ respRun wv st w (i0 :: cs1) = some (f, response wv s v) ∧
+      f.1.state = 0 ∧ f.2.valid = 0 := by
+  obtain ⟨s1, w1, e1, h1, x1⟩ := resp_start wv v s st w i0 h0 hv hi hvin hsz
+  obtain ⟨cs1, cs2, s', w', hc, hr, hs0, hv0⟩ := resp_answered wv v cs (.p1 s) s1 w1 h1 (by simpa [need] using hready)
+  refine ⟨cs1, cs2, (s', w'), hc, ?_, hs0, hv0⟩
+  simp [respRun, e1, hr, x1, rest, response]
+
+/-- non-vacuity of the session theorem: query (0xA5, 2 digits); a second start pulse while '=' is being sent (ignored);
+    the consumer ready every other cycle; a third start pulse (0x3C7, 3 digits) in the FIRST cycle after the '!'
+    handshake (accepted). -/
+def exSession : List RespIn :=
+  [⟨1, 0xA5, 2, 1⟩, ⟨0, 0, 0, 0⟩, ⟨1, 0x77, 1, 1⟩] ++
+  (List.range 12).map (fun t => ⟨0, 9, 9, t % 2⟩) ++ [⟨1, 0x3C7, 3, 0⟩] ++ (List.range 22).map (fun t => ⟨0, 9, 9, t % 2⟩)
+
+example : (respObs 8 CMDResponse.init ⟨0, 0⟩ exSession).map (fun o => (accepted 8 Mon.idle o, o.flatMap (·.2)))
+    = some ([(0xA5, 2), (0x3C7, 3)], [61, 65, 53, 33, 61, 51, 67, 55, 33]) := by decide +kernel
+example : (respObs 8 CMDResponse.init ⟨0, 0⟩ exSession).map (fun o => (o.map (·.2)).drop 13 |>.take 3)
+    = some [[], [33], []] := by decide +kernel          -- '!' handed over in cycle 14, third start pulse in cycle 15
+example : (exSession.drop 15).head?.map (·.start) = some 1 := by decide
+
+/-! ## the chain: CMDRequest → Reg(index_out_r) → output table → CMDResponse -/
+
+/-- ARBITRARY inputs (any valid/c sequence, well-formed or not, any ready sequence), from power-up: the chain never
+    raises; the decoder side is exactly the stand-alone decoder (no feedback from the encoder), so every request
+    theorem carries over; the encoder's ports satisfy the session monitor; and whenever the encoder sees `start_resp`
+    high, the value and digit count it samples are the table entry of the number standing on the `index_out` bus -/
+theorem chain_any_inputs (wv : Nat) (tab : Nat → Nat × Nat) (ins : List (Nat × Nat × Nat)) :
+    ∃ rows m', chainRun k wv tab Chain.init ins = some rows ∧ monRun wv Mon.idle (rows.map (·.2)) = some m' ∧
+      rows.map (fun r => (r.1.st, r.1.w)) = reqRun k CMDRequest.init ReqW.zero (ins.map fun x => (x.1, x.2.1)) ∧
+      ∀ r ∈ rows, r.2.1.start ≠ 0 → (r.2.1.vin, r.2.1.size) = tab (r.1.w.index_out % 2 ^ k.wOut) :=
+  chain_run_inv k wv tab ins Chain.init Mon.idle (selInv_init k) (coup_powerup wv)
+
+/-- the composed statement for the full HIL chain.  For every well-formed command stream, EVERY producer timing, every
+    consumer `ready` function of time, every output table and character width there is a time `T0` such that for every
+    later observation time the run of the whole chain from power-up
+      (1) never raises,
+      (2) shows on the decoder's strobes exactly the meanings of the commands, in order, nothing else, ever,
+      (3) satisfies the session monitor at the encoder's ports: each start pulse that finds nothing owed is answered
+          completely ('=' digits '!') within `2·size+4` ready cycles, other start pulses are ignored, no other character,
+      (4) and every start pulse presents the table entry of the LAST `selOut` event, which by (2) and
+          `queries_of_meaning` is the number `n` of the very `O<n>?` command that raised it.
+    What the composition cannot give (and the unchanged code does not do): a response for a query whose start pulse
+    arrives while the previous response is still owed — the host must wait for '!' (DUTProxy does). -/
+theorem hil_chain_stream (cmds : List Cmd) (hwf : ∀ c ∈ cmds, c.wf) (p : Prod)
+    (hp : Prod.chars p = cmds.flatMap Cmd.chars) (wv : Nat) (tab : Nat → Nat × Nat) (rdy : Nat → Nat) :
+    ∃ T0, ∀ n, ∃ rows m',
+      chainRun k wv tab Chain.init (chainIns rdy 0 (loopIns k (T0 + n) (reqInit p))) = some rows ∧
+      events (rows.map (·.1.w)) = cmds.flatMap (Cmd.meaning k) ∧
+      monRun wv Mon.idle (rows.map (·.2)) = some m' ∧
+      ∀ pre r post, rows = pre ++ r :: post → r.2.1.start ≠ 0 →
+        (r.2.1.vin, r.2.1.size) = tab (lastSel 0 (events ((pre ++ [r]).map (·.1.w))) % 2 ^ k.wOut) := by
+  obtain ⟨T0, _, hev⟩ := req_stream_forever k cmds hwf p hp
+  refine ⟨T0, fun n => ?_⟩
+  obtain ⟨rows, m', e, hm, hreq, hsmp⟩ :=
+    chain_any_inputs k wv tab (chainIns rdy 0 (loopIns k (T0 + n) (reqInit p)))
+  rw [chainIns_proj] at hreq
+  have hw : rows.map (·.1.w) = (reqRun k CMDRequest.init ReqW.zero (loopIns k (T0 + n) (reqInit p))).map (·.2) := by
+    rw [← hreq]; simp
+  refine ⟨rows, m', e, ?_, hm, ?_⟩
+  · rw [hw]
+    have ht : trace k (T0 + n) (reqInit p)
+        = (reqRun k CMDRequest.init ReqW.zero (loopIns k (T0 + n) (reqInit p))).map (·.2) :=
+      trace_eq_reqRun k (T0 + n) (reqInit p)
+    rw [← ht]
+    exact hev n
+  · intro pre r post hrows hst
+    have hmem : r ∈ rows := by rw [hrows]; simp
+    rw [hsmp r hmem hst]
+    have hsplit : (reqRun k CMDRequest.init ReqW.zero (loopIns k (T0 + n) (reqInit p))).map (·.2)
+        = pre.map (·.1.w) ++ r.1.w :: post.map (·.1.w) := by rw [← hw, hrows]; simp
+    have := index_out_tracks k _ _ _ _ _ _ hsplit
+    rw [this]
+    simp [ReqW.zero]
+
+/-- non-vacuity of the chain theorem, and the timing class of seed C20p as a kernel-checked run: "O1?" "O2?" with 8 idle
+    cycles before the second 'O', consumer ready in even cycles.  The first response's '!' is handed over in cycle 26, the
+    second start pulse is seen by the encoder in cycle 27 — the first idle cycle — and is answered. -/
+def exTab : Nat → Nat × Nat := fun n => if n = 1 then (0xA5, 2) else if n = 2 then (0x3C7, 3) else (0, 0)
+def exProd2 : Prod := [([], 79), ([], 49), ([], 63), ([0, 0, 0, 0, 0, 0, 0, 0], 79), ([], 50), ([], 63)]
+def exChainRun : Option (List Row) :=
+  chainRun ⟨4, 8, 3⟩ 8 exTab Chain.init (chainIns (fun t => if t % 2 = 0 then 1 else 0) 0 (loopIns ⟨4, 8, 3⟩ 56 (reqInit exProd2)))
+
+example : Prod.chars exProd2 = [Cmd.O [1], Cmd.O [2]].flatMap Cmd.chars := by decide
+example : exChainRun.map (fun rows => rows.flatMap (·.2.2)) = some [61, 65, 53, 33, 61, 51, 67, 55, 33] := by decide +kernel
+example : exChainRun.map (fun rows => accepted 8 Mon.idle (rows.map (·.2))) = some [(0xA5, 2), (0x3C7, 3)] := by decide +kernel
+example : exChainRun.map (fun rows => ((rows.map fun r => (r.2.1.start, r.2.2)).drop 26).take 2) = some [(0, [33]), (1, [])] := by
+  decide +kernel
+example : queries ⟨4, 8, 3⟩ [Cmd.O [1], Cmd.K [3], Cmd.O [2]] = [1, 2] := by decide
 
 end C20
